@@ -17,11 +17,11 @@ open Py DocUtils DocSplit Loop
 theorem ok_bind {ε α β : Type} (a : α) (f : α → Except ε β) : (Except.ok a >>= f) = f a := rfl
 
 /-- `_get_token_last_idx` after the last-token line has been located and the backward `while` has run (non-numpydoc exit) -/
-theorem tokenLastIdx_pipeline (d : Str) (lf : Int) (lfs : Option Int) (lfe : Int) (idx : Int) (ca : Nat)
+theorem tokenLastIdx_pipeline (d : Str) (lf : Int) (lfs : Option Int) (lfe : Option Int) (idx : Int) (ca : Nat)
     (h1 : lastDocStrToken d.toArray = some lf)
     (h2 : startOfLastFound d.toArray lf = .ok lfs)
-    (h3 : endOfLastFound d.toArray lf lfs (deriveFormat d.toArray) = .ok (some lfe))
-    (h4 : (loopA d.toArray).run (findEndOfArgsReturns d.toArray (some lfe)) = (idx, .cond, ca)) :
+    (h3 : endOfLastFound d.toArray lf lfs (deriveFormat d.toArray) = .ok lfe)
+    (h4 : (loopA d.toArray).run (findEndOfArgsReturns d.toArray lfe) = (idx, .cond, ca)) :
     tokenLastIdx d.toArray =
       (let started : Int := leadingWs (slice d (some (idx + 1)) none) + idx + 1
        if startsWithAny tokensSet (slice d (some started) none) then
